@@ -81,6 +81,7 @@ TARGETS = [
     ("radioactivedecay/inventory.py", "InventoryHP", "__init__", "Model/Inventory.v construct (normalise = nsimplify)"),
     ("radioactivedecay/utils.py", None, "add_dictionaries", "Model/Inventory.v add_dictionaries"),
     ("radioactivedecay/utils.py", None, "sort_dictionary_alphabetically", "Model/Inventory.v d_sort"),
+    ("radioactivedecay/utils.py", None, "sort_list_according_to_dataset", "Model/SeriesAsm.v sort_list_according_to_dataset"),
     ("radioactivedecay/inventory.py", "AbstractInventory", "half_lives", "Model/Queries.v (delegation)"),
     ("radioactivedecay/inventory.py", "AbstractInventory", "progeny", "Model/Queries.v (delegation)"),
     ("radioactivedecay/inventory.py", "AbstractInventory", "branching_fractions", "Model/Queries.v (delegation)"),
